@@ -1495,7 +1495,7 @@ def val_rotor_between_objects_explicit(X1, X2):
     K_val[0] = K_val[0] + 2
 
     if np.sum(np.abs(K_val)) < 0.0000001:
-        return unit_scalar_mv.value
+        return unit_scalar_mv.value.copy()
 
     if np.sum(np.abs(project_val(M12_val, 4))) > 0.00001:
         K_val_4 = project_val(K_val, 4)
